@@ -11,7 +11,7 @@ import (
 )
 
 func init() {
-	register("C05", "Structural clauses behind truthful change notifications, decided on all paths of the disk writer: a notification is only reachable after the checked mutation it reports (remove; metadata and rename; data callback completion or digest finalisation); with a notify callback set, no success return is reachable after a mutating call without a notification or the hand-off to the asynchronous writer (the directory-over-directory shortcut violates this: open known finding F6); the digest hashes the caller's header of the stat as sent and exactly the bytes that also go to the file (one multi-writer, fields private to constructor and Close, digest taken before close); delete suppression below a removed directory uses a separator-terminated prefix. Does not decide 'exactly once' nor that applying the events to a model reproduces the tree.", runC05)
+	register("C05", "Structural clauses behind truthful change notifications, decided on all paths of the disk writer: a notification is only reachable after the checked mutation it reports (remove; metadata and rename; data callback completion or digest finalisation); with a notify callback set, no success return is reachable after a mutating call without a notification or the hand-off to the asynchronous writer (the directory-over-directory shortcut violates this: open known finding F6); the digest hashes the caller's header of the stat as sent and exactly the bytes that also go to the file (one multi-writer, fields private to constructor and Close, digest taken before close); delete suppression below a removed directory uses a separator-terminated prefix. The file writer behind the digest hands every chunk through to the file (no success return of lazyFileWriter.Write without a write of the whole slice). Does not decide 'exactly once' nor that applying the events to a model reproduces the tree.", runC05)
 }
 
 func runC05(c *Ctx) {
@@ -20,6 +20,52 @@ func runC05(c *Ctx) {
 	r05_2(c, "R05.2")
 	r05_3(c, "R05.3")
 	r05_4(c, "R05.4")
+	r05_5(c, "R05.5")
+}
+
+// R05.5: the bytes that are hashed are the bytes that are stored.
+//
+// The digest is fed by an io.MultiWriter in front of the file writer: it has
+// seen every byte the data callback wrote. The file has them only if the
+// writer behind it hands each Write through: every success return of
+// lazyFileWriter.Write is the result of (*os.File).Write applied to the very
+// slice it was given (no chunk skipped, trimmed or deferred).
+func r05_5(c *Ctx, rule string) {
+	c.R.Rule(rule, "lazyFileWriter.Write: every success return is preceded by a write of the whole slice it was given to the opened file")
+	w := c.Fn(rule, "fsutil.(*lazyFileWriter).Write")
+	if w == nil {
+		return
+	}
+	var data *ssa.Parameter
+	for _, q := range w.Params {
+		if eng.TypeStr(q.Type()) == "[]byte" {
+			data = q
+		}
+	}
+	if data == nil {
+		c.R.Missing(rule, "[]byte parameter of lazyFileWriter.Write")
+		return
+	}
+	n := 0
+	isWholeWrite := func(in ssa.Instruction) bool {
+		call, ok := in.(ssa.CallInstruction)
+		if !ok || !c.P.IsCallTo(in, "(*os.File).Write", "(io.Writer).Write", "(*os.File).WriteAt") {
+			return false
+		}
+		for _, a := range call.Common().Args {
+			if eng.Strip(a) == ssa.Value(data) {
+				return true
+			}
+		}
+		return false
+	}
+	eng.Instrs(w, func(in ssa.Instruction) {
+		if isWholeWrite(in) {
+			n++
+		}
+	})
+	c.R.Floor(rule, "writes of the whole slice in lazyFileWriter.Write", n, 1)
+	c.ObSuccessNeeds(rule, c.name(w)+"/success-needs-whole-write", w, nil, nil, isWholeWrite, "a write of the slice it was given")
 }
 
 func isNotify(c *Ctx) func(ssa.Instruction) bool {
